@@ -721,13 +721,21 @@ fn run() {
                             if t == "R" {
                                 return MarketStreamEvent::Reconnecting(EXCHANGE);
                             }
+                            // `i:p` (exchange time = position in the dataset) or `i:p@t`: an explicit
+                            // exchange time in ms, which need not increase along the dataset (recordings
+                            // ordered by time received, late trades): the dataset order is what counts
+                            let (t, at) = match t.split_once('@') {
+                                Some((t, at)) => (t, Some(at.parse::<i64>().expect("time"))),
+                                None => (t.as_str(), None),
+                            };
                             let (i, p) = t.split_once(':').expect("i:p or R");
                             let i: usize = i.parse().unwrap();
                             assert!(i < k, "instrument out of range");
                             let p: u32 = p.parse().unwrap();
+                            let te = time_ms(at.unwrap_or(pos as i64 + 1));
                             MarketStreamEvent::Item(MarketEvent {
-                                time_exchange: time_ms(pos as i64 + 1),
-                                time_received: time_ms(pos as i64 + 1),
+                                time_exchange: te,
+                                time_received: te,
                                 exchange: EXCHANGE,
                                 instrument: InstrumentIndex(i),
                                 kind: DataKind::Trade(PublicTrade {
@@ -863,10 +871,20 @@ fn gen_case(out: &mut Out, rng: &mut Rng, id: &str, len: usize, runs: &[(usize, 
         }
     }
     let mid_pct = if rng.chance(33) { *rng.pick(&[2u64, 10, 30]) } else { 0 };
+    // a third of the unpaced cases: exchange times that do not follow the dataset order (some older than the
+    // first Item, which seeds the clock; equal times); such cases use passive strategies only (the price a
+    // strategy reads is the C09 register, which is about exchange time, not dataset order)
+    let odd_times = gap_ms.is_none() && rng.chance(33);
     for pos in 0..len {
         let i = rng.below(k as u64) as usize;
         let p = base[i] + rng.range(0, 3);
-        toks.push(format!("{i}:{p}"));
+        if odd_times {
+            let cands = [rng.range(0, 999), 1000, rng.range(1001, 2000), rng.range(0, 2000)];
+            let t = if pos == 0 { 1000 } else { *rng.pick(&cands) };
+            toks.push(format!("{i}:{p}@{t}"));
+        } else {
+            toks.push(format!("{i}:{p}"));
+        }
         if pos + 1 < len && mid_pct > 0 && rng.chance(mid_pct) {
             toks.push("R".into());
             if rng.chance(20) {
@@ -886,7 +904,7 @@ fn gen_case(out: &mut Out, rng: &mut Rng, id: &str, len: usize, runs: &[(usize, 
     let n_strats = rng.range(1, 3);
     for s in 0..n_strats {
         // the first parameterisation of every other case is passive (the repo's own example)
-        if (s == 0 && rng.chance(50)) || rng.chance(20) {
+        if odd_times || (s == 0 && rng.chance(50)) || rng.chance(20) {
             out.line("strat -");
             continue;
         }
